@@ -37,3 +37,41 @@ meta("C14",
                   "bool and empty-container ids are neither 'supplied' nor 'absent' in the statement: unconstrained"],
      not_decided=["loads(dumps(x)) == N(x) is the composition of the dumps/loads contracts with the trusted JSON "
                   "round-trip axiom; it is stated in C01's lemma, not re-proved here"])
+
+_DISP_TB = ['environment callable: appends to ghost call_log, returns any non-Fault value or raises any Exception; bind_err only for a TypeError raised while binding arguments', "json.loads / json.dumps contracts; traceback.format_exception: last line is '<type name>: <str(exc)>\\n'", "resolve_dotted_attribute(obj, name, True): AttributeError iff a segment starts with '_' or is missing", 'ThreadPool.enqueue contract (proved under C09): accepts a callable on an unbounded queue without running it inline']
+meta("C02",
+     explanation="_marshaled_dispatch is verified for every request text: the reply is '' or the JSON text of a response "
+                 "object / non-empty list of response objects, each satisfying wf_response (written from the statement); "
+                 "the batch loop carries the quantified invariant 'every collected response is well-formed'.",
+     trusted_base=_DISP_TB,
+     assumptions=["'never raises' is proved in the form: the dispatcher raises only if the JSON backend rejects the reply it "
+                  "built (TypeError from json.dumps); that a reply built from JSON-representable results and ids is "
+                  "serialisable is the trusted json.dumps contract, not proved",
+                  "notification pools have unbounded queues (enqueue cannot raise queue.Full)"],
+     not_decided=["HTTP status plumbing of do_POST"])
+meta("C03",
+     explanation="id echo is a postcondition of validate_request (Fault carries the id), _marshaled_single_dispatch "
+                 "(every answered entry echoes request['id'], also on the exception paths) and of the batch loop "
+                 "invariant: len(responses) == answered(batch, i) and the response owed to entry k sits at index "
+                 "answered(batch, k) (answered is a recursive specification function).",
+     trusted_base=_DISP_TB, assumptions=[], not_decided=[])
+meta("C04",
+     explanation="a well-formed entry whose id is absent/None/'' yields no response object on every path (return, raise, "
+                 "unknown method, custom dispatcher); inline: the environment call log grows by exactly one entry when the "
+                 "method is known; pooled: nothing is called inline and exactly one task is handed to enqueue.",
+     trusted_base=_DISP_TB,
+     assumptions=["pooled notifications: 'executed exactly once' is carried from the accepted task by C09's contract"],
+     not_decided=["eventual execution of an accepted task by a pool worker (liveness)"])
+meta("C05",
+     explanation="the code table is a set of postconditions of _dispatch / _marshaled_single_dispatch / _marshaled_dispatch "
+                 "over the environment model (unknown, private, bind error, method exception); 'nothing ran' is ghost "
+                 "call_log unchanged.",
+     trusted_base=_DISP_TB, assumptions=[], not_decided=["client-side surfacing is C06"])
+meta("C13",
+     explanation="frame clauses: no function on the serving path writes a field of the server's Config (config_unchanged "
+                 "postconditions, loop invariant conjunct); the only Config written is the fresh object returned by "
+                 "Config.copy; the reply form is a function of (has jsonrpc, server version).",
+     trusted_base=_DISP_TB,
+     assumptions=["containers have value semantics in the model: aliasing between the two configurations' dicts is "
+                  "checked by a separate structural obligation on Config.copy (see evidence)"],
+     not_decided=[])
